@@ -55,6 +55,28 @@ def main(argv=None) -> int:
         return 2
 
 
+def witnesses_failing(findings) -> set[str]:
+    """ids of the listed findings whose recorded witness (known_findings.json: witness.python, a snippet that sets `fails`) still
+    fails on the library under test"""
+    out = set()
+    try:
+        dc = common.import_repo()
+    except Exception:  # noqa: BLE001
+        return out
+    for f in findings:
+        code = (f.get("witness") or {}).get("python")
+        if not code:
+            continue
+        ns = {"cstruct": dc.cstruct, "dc": dc}
+        try:
+            exec(compile(code, f"<witness {f['id']}>", "exec"), ns)  # noqa: S102 - our own committed snippets
+            if ns.get("fails"):
+                out.add(f["id"])
+        except Exception:  # noqa: BLE001 - a witness that cannot even run still fails
+            out.add(f["id"])
+    return out
+
+
 def replay(prop: str, mod, body: dict, findings) -> int:
     """exit 1 if the recorded violation still occurs on the current tree, 0 if it does not.
     First the module's own replay (re-evaluates the recorded case directly where it can); when that does not decide
@@ -133,9 +155,16 @@ def run(prop: str, tier: str, seed: int, t0: float, args) -> int:
     exit_code = 0
     out_lines = []
     nrep = 0
-    for fid, cnt in sorted(res.known_seen.items()):
-        f = next(x for x in findings if x["id"] == fid)
-        out_lines.append(f"KNOWN-FINDING: property={prop} {fid}: {f['what_fails']} (seen on {cnt} cases this run)")
+    # every finding listed for this property: its recorded witness is re-evaluated on the current tree; the line is printed while
+    # the witness still fails (a repaired defect prints nothing), whether or not the run's generators met the finding's territory
+    still = witnesses_failing(findings)
+    for f in findings:
+        fid = f["id"]
+        cnt = res.known_seen.get(fid)
+        if fid in still or cnt:
+            seen = f"seen on {cnt} cases this run" if cnt else "territory not met by this run's generators"
+            wit = "witness still fails" if fid in still else "witness no longer fails"
+            out_lines.append(f"KNOWN-FINDING: property={prop} {fid}: {f['what_fails']} ({wit}; {seen})")
     broken = (not lean.ok) or bool(res.disagreements)
     if res.violations:
         exit_code = 1
